@@ -1265,7 +1265,8 @@ void ppDiv(word q[], word r[], const word a[], size_t n, const word b[],
 	// нормализация не нужна?
 	if (shift == 0)
 		// обнуляем старшие слова q и r
-		q[n - m] = 0, r[--m] = 0;
+		// (старшее слово divident нулевое: частное укладывается в n - m + 1 слов)
+		q[n - m] = 0, r[--m] = 0, --n;
 	else
 		// сдвигаем divisor и divident
 		shift = B_PER_W - shift,
